@@ -52,6 +52,11 @@ CHECKS = {
         text="For skeletons of 1-2 (quick) / 1-3 (thorough) tag items (object, assign, if, if/else, for, comment, raw, capture) surrounded by text pieces from a whitespace alphabet, every one of the 2^k subsets of hyphen positions (k <= 12) is rendered. A token-level reference trimmer decides the output whenever every hyphen faces non-empty literal text on the taken path; in all cases the whitespace-erased outputs with and without hyphens must coincide, and a template without hyphens must lose nothing.",
         note="raw/comment bodies and untaken branches are not literal text for the exact oracle; hyphens adjacent to another tag fall under the whitespace-erasure law only.",
         tech="exhaustive marker-subset enumeration over template skeletons against a token-level reference trimmer"),
+    "C08": dict(
+        cat="model_checking", ref="4/C08",
+        text="Reference lookup rules (array index with negatives, first/last/size, map entry with size fallback, nil for every step that does not apply, strict-variables error for a nil final value) are compared with the real evaluator on the complete grid array length 0..5 x 4 representations x index -7..7 spelled four ways x non-integer indices, on map and scalar access grids, and on every lookup tree of depth <=2 (quick) / <=3 (thorough) over 16 atoms. Filter pipelines are decided by the law the statement gives: every chain of 2|3 steps over ~100 filter steps and 14 receivers must render as its assign-by-assign decomposition; unknown filters and one argument too many must be errors for every standard filter; whitespace (including newlines) from a 4-symbol set is inserted in every gap of 7 tag/object forms (all 4^k combinations), and dot/bracket/quote spellings must agree.",
+        note="Unspecified (not compared): float indices, string properties/indexing, array[\"first\"], map[\"size\"] without key, range indexing. Filter arities from the table in mc/props/c08.go.",
+        tech="exhaustive lookup-grid and expression-tree enumeration against reference lookup rules, plus pipeline-decomposition and spelling-invariance laws"),
 }
 
 NOT_YET = "check not built yet (work in progress; see DESIGN.md section 7 build order)"
